@@ -174,6 +174,7 @@ fn main() {
     }
     if ctx.on("alloc") {
         alloc::run_alloc_listvar(&mut ctx);
+        alloc::run_alloc_large(&mut ctx);
     }
     if ctx.on("derive") {
         use derive::run_derive;
